@@ -10,6 +10,11 @@ CLAIMED = {
    text='Theorems C10_matcher_spec / C10_frame_* hold for all packages, selectors and regex oracles; the model is tied to the code by the step correspondence (real processor vs compiled model on generated packages) and the frame property is re-checked on the real output of every selector-taking processor.',
    note='re is an oracle parameter (table per case); processors not in Layer A (set_type, validate, sort_rows, printer, parallelize, add_computed_field, find_replace, update_schema, load) are covered by the frame oracle on the real code only',
    ref='6/C10'),
+ 'C14': dict(
+   technique='Lean 4 proof (schema_validator loop = per-policy specification, for every cast function) + validate correspondence + policy oracle on real code',
+   text='For every cast function, table, number and position of bad values: drop = filter+cast, ignore/clear keep all rows, custom handlers by truthiness, raise aborts at the first bad row with its absolute index, emitted values are casts; tied to the code by the validate correspondence with the real cast_value outcomes and re-checked directly on real set_type/validate runs.',
+   note='Field.cast_value is a parameter (its outcomes are supplied per case); field names of the schema assumed distinct; field-name patterns with a top-level alternation are not generated (their anchoring is not pinned by the property)',
+   ref='6/C14'),
  'C15': dict(
    technique='Lean 4 proof (lockstep invariants of delete/select/add/rename) + step correspondence + lockstep oracle',
    text='Lockstep (row keys = declared fields), value preservation and order rules proved for every table and every regex oracle; correspondence ties the model to the code; the lockstep property is checked directly on real outputs incl. add_computed_field and find_replace.',
